@@ -41,7 +41,8 @@ def kept_line_locals(P, fn):
         if r[0] is None:
             return False
         d = ch.single_def(r[0])
-        return bool(d and d[0] == "stmt" and d[2]["k"] == "bin" and d[2]["op"] == "AddWithOverflow" and "const" in d[2]["r"] and d[2]["r"]["const"].get("int") == "1")
+        # (checked in a debug build, plain in a release build)
+        return bool(d and d[0] == "stmt" and d[2]["k"] == "bin" and d[2]["op"] in ("AddWithOverflow", "Add") and "const" in d[2]["r"] and d[2]["r"]["const"].get("int") == "1")
 
     out = []
     for l, rvs in asg.items():
@@ -79,6 +80,17 @@ def unterminated_is_reported(P, rep):
             silent.append("%s (no end-of-text row)" % mode)
         elif not all(act[0] == 'none' and len(act) > 2 and act[2] for cls, cz, act, wf in rows):
             silent.append(mode)
+    # a line of the chain itself (.else / .elif / .endif of the conditional being skipped, nesting counter 0) that is not well formed is
+    # the line at fault: whatever the scanner is searching for, it hands that line to the line parser, which reports it
+    quiet = []
+    for mode in ("EndIf", "EndChain"):
+        for cls in ("Else", "ElIf", "Endif"):
+            acts = set(rules_C08.scan_step(table, mode, cls, 0, False))
+            if not acts or any(a[0] != 'this' for a in acts):
+                quiet.append("%s while %s" % (cls.lower(), "searching the next arm" if mode == "EndIf" else "passing over the remaining arms"))
+    rep.ob("C15.chain-line|malformed", not quiet,
+           "a malformed .else / .elif / .endif of the conditional being skipped is handed to the line parser in every mode" if not quiet else
+           "a malformed line of the chain is passed over without a word (%s): `.if 1 / ... / .elif x == (3 / ... / .endif` builds" % "; ".join(quiet[:3]))
     rep.ob("C15.unterminated|scanner", not silent,
            "running out of text in search of .endif / .endmacro is told apart from the plain end of the text (modes EndIf, EndChain, EndMacro)" if not silent else
            "the scanner reaches the end of the text in mode %s and answers like at the plain end of a file: after an .if 0 or a .macro that is never closed (or whose closing line is misspelt) the rest of the file is dropped without a word" % ", ".join(silent))
